@@ -21,7 +21,7 @@ RULE = ("A: packet histories at one station (distinct by hash of the event list)
         "hop limit, origin); non-trivial = at least one duplicate or forward was observed and judged.")
 ASSUMPTIONS = ["a replay outside the DPL window may legitimately be delivered/forwarded again: the model tracks the ring exactly",
                "omitted forwards (PDR limit, area-size control, SCF stub) are allowed: at-most-once is an upper bound"]
-REQUIRED_COUNTERS = ["A.cbf_rebuffer_judged", "A.forward_copies_compared[no-neighbour,scf]", "A.cbf_overheard_judged", "A.cbf_overheard_after_leaving_the_area", "A.duplicates_judged", "A.forward_copies_compared", "A.rhl01_judged", "A.own_address_judged", "B.floods",
+REQUIRED_COUNTERS = ["A.late_packets_with_old_source_timestamp", "A.cbf_rebuffer_judged", "A.forward_copies_compared[no-neighbour,scf]", "A.cbf_overheard_judged", "A.cbf_overheard_after_leaving_the_area", "A.duplicates_judged", "A.forward_copies_compared", "A.rhl01_judged", "A.own_address_judged", "B.floods",
                      "B.station_packet_pairs", "B.cbf_overheard_judged"]
 
 KINDS = ("tsb", "gbc_in", "gbc_out", "gac_in", "gac_out", "guc_other", "guc_me", "ls_req_other", "ls_rep_other")
@@ -61,6 +61,7 @@ def gen_a(rng):
     ev = []
     sn = {i: rng.choice((0, 5, 65530, 65534, rng.randrange(65536))) for i in range(nsrc)}
     fresh = []
+    seen_fresh = set()
     for _ in range(rng.randrange(4, 40)):
         r = rng.random()
         if r < 0.2:
@@ -80,7 +81,12 @@ def gen_a(rng):
                        # the station gets a position fix that takes it out of the destination area while its copy waits in the CBF buffer
                        "move_out": rng.random() < 0.35,
                        # store-carry-forward bit of the traffic class (matters when the forwarder has no neighbour)
-                       "scf": int(rng.random() < 0.3)})
+                       "scf": int(rng.random() < 0.3),
+                       # a late packet: its source timestamp is older than the location-table lifetime (the source is already
+                       # known through a fresh packet, so its entry -- and duplicate list -- stay alive)
+                       "old_tst": src != "self" and src in seen_fresh and rng.random() < 0.2})
+            if src != "self" and not ev[-1]["old_tst"]:
+                seen_fresh.add(src)
             fresh.append(len(ev) - 1)
     return {"part": "A", "alg": rng.choice((1, 2)), "dpl": dpl, "events": ev, "src_inside": False, "has_nb": rng.random() < 0.7}
 
@@ -115,7 +121,9 @@ def run_a_case(c, res):
             if ev["e"] == "pkt":
                 src = ev["src"]
                 mid = mid_of(1) if src == "self" else mid_of(50 + src)
-                so_pv = {"addr": {"m": 0, "st": 5, "mid": mid}, "tst": tst_of(now - 0.2), "lat": MY_LAT - 500000 - 1000 * (0 if src == "self" else src),
+                if ev.get("old_tst"):
+                    res.count("A.late_packets_with_old_source_timestamp")
+                so_pv = {"addr": {"m": 0, "st": 5, "mid": mid}, "tst": tst_of(now - (27.0 if ev.get("old_tst") else 0.2)), "lat": MY_LAT - 500000 - 1000 * (0 if src == "self" else src),
                          "lon": MY_LON, "pai": 1, "s": 0, "h": 0}
                 if ev["de"] == "far":
                     de = {"addr": {"m": 0, "st": 5, "mid": mid_of(99)}, "tst": 77, "lat": MY_LAT + 5000, "lon": MY_LON + 5000}
